@@ -283,6 +283,42 @@ func c14Tags(c *Ctx, r *Report) {
 		{"lint", "RevocationListLint", []string{"LintMetadata"}, []string{"Lint"}},
 		{"lint", "OcspResponseLint", []string{"LintMetadata"}, []string{"Lint"}},
 	}
+	// codec census: the struct tags decide the JSON form only as long as no type
+	// involved has a hand-written codec. The reviewed ones are LintStatus
+	// (Marshal/Unmarshal, decided by the codec rule) and LintSource (Unmarshal).
+	allowedCodec := map[string]bool{
+		"lint.LintStatus.MarshalJSON": true, "lint.LintStatus.UnmarshalJSON": true, "lint.LintSource.UnmarshalJSON": true,
+	}
+	nTypes := 0
+	for _, p := range c.Mod {
+		sc := p.Types.Scope()
+		for _, n := range sc.Names() {
+			tn, ok := sc.Lookup(n).(*types.TypeName)
+			if !ok || tn.IsAlias() {
+				continue
+			}
+			nTypes++
+			for _, T := range []types.Type{tn.Type(), types.NewPointer(tn.Type())} {
+				ms := types.NewMethodSet(T)
+				for _, m := range []string{"MarshalJSON", "UnmarshalJSON", "MarshalText", "UnmarshalText"} {
+					sel := ms.Lookup(nil, m)
+					if sel == nil {
+						continue
+					}
+					// attribute to the declaring type (promoted methods count for the outer type too)
+					id := relPkg(p.PkgPath) + "." + n + "." + m
+					if allowedCodec[id] {
+						continue
+					}
+					if _, isPtr := T.(*types.Pointer); isPtr && types.NewMethodSet(tn.Type()).Lookup(nil, m) != nil {
+						continue // already reported for the value type
+					}
+					r.Unk("codec-census", id, sel.Obj().Pos(), "type "+n+" encodes/decodes through a hand-written (or promoted) "+m+", so its JSON form is no longer given by the struct tags this rule checks; the method's output is not modelled")
+				}
+			}
+		}
+	}
+	r.Floor("named types examined for hand-written JSON codecs", 300, nTypes)
 	for _, sp := range specs {
 		named := c.Named(sp.rel, sp.name)
 		st, ok := named.Underlying().(*types.Struct)
